@@ -948,7 +948,7 @@ pub fn gen_schedule(r: &mut Rng, g: &GenCfg, steps: usize, prop: &str, backpress
             // a peer that talks before it is asked: bytes arriving in the same read as the greeting
             // cannot be the verdict on a password that has not been sent yet
             let mut v = greeting.clone();
-            v.extend_from_slice(*r.pick(&[&b"OK\n"[..], b"ACK [3@0] {password} incorrect password\n", b"foo: bar\nOK\n"]));
+            v.extend_from_slice(*r.pick(&[&b"OK\n"[..], b"ACK [3@0] {password} incorrect password\n", b"foo: bar\nOK\n", b"ACK [5@0] {} unknown command \"password\"\n"]));
             do_act(&mut w, &mut sv, &mut actions, format!("d{}", hex(&v))).await;
         } else if r.chance(1, 3) && greeting.len() > 3 {
             let p = r.range(1, greeting.len() - 1);
@@ -961,6 +961,11 @@ pub fn gen_schedule(r: &mut Rng, g: &GenCfg, steps: usize, prop: &str, backpress
             // a peer whose verdict has an unusual but grammatical shape: frames or list_OK before
             // the ACK / the OK. Any ACK is a rejection, a complete reply without one an acceptance.
             let v: &[u8] = *r.pick(&[
+                // every ACK is a rejection, whatever its code (5 = unknown command, 4 = permission, 2 = argument)
+                &b"ACK [5@0] {} unknown command \"password\"\n"[..],
+                b"ACK [4@0] {password} you don't have permission for \"password\"\n",
+                b"ACK [2@0] {password} wrong number of arguments for \"password\"\n",
+                b"ACK [5@0] {password} unknown command\n",
                 &b"list_OK\nACK [3@1] {password} incorrect password\n"[..],
                 &b"foo: bar\nACK [3@0] {password} incorrect password\n"[..],
                 &b"foo: bar\nlist_OK\nACK [3@1] {password} incorrect password\n"[..],
@@ -1215,6 +1220,19 @@ pub fn gen_schedule(r: &mut Rng, g: &GenCfg, steps: usize, prop: &str, backpress
                 break;
             }
         }
+        // C13: an empty typed list writes nothing and yields an empty result — also on a connection
+        // that has ended (cleanly, or with an error while a request was in flight)
+        if prop == "C13" && !backpressure && main_alive && r.chance(1, 3) {
+            if r.chance(1, 2) {
+                rid += 1;
+                do_act(&mut w, &mut sv, &mut actions, format!("q{}:{}", rid, cmd_spec("x", &[format!("c{}", r.below(1000))]))).await;
+            }
+            do_act(&mut w, &mut sv, &mut actions, "e".to_string()).await;
+            do_act(&mut w, &mut sv, &mut actions, "t100".to_string()).await;
+            rid += 1;
+            do_act(&mut w, &mut sv, &mut actions, format!("y{}:v:", rid)).await;
+            do_act(&mut w, &mut sv, &mut actions, "t100".to_string()).await;
+        }
         format!("{}.{}.{} {} {}", if backpressure { "loopx" } else { "loop" }, prop, sel_seed, pw.map(|p| format!("{}{}", if locked0 { "L" } else { "" }, if p.is_empty() { "-".to_string() } else { hex(p.as_bytes()) })).unwrap_or("~".into()), actions.join(","))
     })
 }
@@ -1250,7 +1268,12 @@ pub fn gen(cfg: &Cfg) -> Vec<String> {
                 }
             }
         };
-        ops.push(gen_schedule(&mut r, &g, steps, &cfg.prop, false));
+        // C06, every other schedule: no password but album art, whose URI (blanks, quotes, non-ASCII) is an
+        // argument that must reach the server byte for byte in EVERY chunk request
+        let g_art = GenCfg { faults: false, password: false, art: true, typed: false, changes: false, bytewise: false, wfaults: false, drop_events: false };
+        let g_here = if cfg.prop == "C06" && i % 2 == 1 { &g_art } else { &g };
+        let steps = if cfg.prop == "C06" && i % 2 == 1 { r.range(10, 40) } else { steps };
+        ops.push(gen_schedule(&mut r, g_here, steps, &cfg.prop, false));
         if cfg.prop == "C04" && i < 2 {
             ops.push(gen_burst(&mut r, 70 + 25 * i));
         }
